@@ -16,7 +16,8 @@ RULE = (
     "and after exit), second deactivation, call after exit} on a probe f > a, replayed on a fresh world; "
     "model: a stage attached at time t sees exactly the events of calls made after t and inside the active "
     "window, a reduction publishes exactly one value (the fold of what it saw) at deactivation and never "
-    "again, a refused re-activation changes nothing; the same search again in a world where an earlier probe ended "
+    "again, a refused re-activation changes nothing, and neither does the refused activation of another probe on the "
+    "same function (which never receives anything); the same search again in a world where an earlier probe ended "
     "while a generator started under it is still suspended, with {advance, close, drop} of that generator as "
     "extra operations (the ended probe's outputs never change, the probe under test is undisturbed); plus a subprocess per scenario for probes still "
     "active at interpreter exit"
@@ -62,6 +63,11 @@ class World:
             self.stale_outs = (seen, cnt)
 
         self.probe = probing("f > a", env={"f": self.f})
+        # a second probe whose activation is always refused (its second selector names a variable f does
+        # not have): it never becomes active, so its pipeline never sees anything
+        self.bad = probing("f > a", "f > nope", env={"f": self.f})
+        self.bad_out = []
+        self.bad["a"].subscribe(self.bad_out.append)
         self.outs = []   # one output list per stage
         self.calls = 0
         self.undefined = set()
@@ -92,6 +98,7 @@ class System:
         if status == "done":
             ops.append(("deact2",))
         ops.append(("call",))
+        ops.append(("refused-other",))
         return ops
 
     def step_model(self, m, op):
@@ -100,7 +107,7 @@ class System:
             return (status, stages + ((op[1], ()),), calls, stale), "ok"
         if op[0] == "act":
             return ("active", stages, calls, stale), "ok"
-        if op[0] == "react":
+        if op[0] in ("react", "refused-other"):
             return m, "refused"
         if op[0] == "stale":
             stale = (stale + 1 if stale < 4 else "none") if op[1] == "next" else "none"
@@ -189,6 +196,14 @@ class System:
                 except Exception:
                     return "refused"
                 return "accepted"
+            if op[0] == "refused-other":
+                from ptera.selector import SelectorError
+
+                try:
+                    w.bad.__enter__()
+                except SelectorError:
+                    return "refused"
+                return "accepted"
             if op[0] == "call":
                 w.calls += 1
                 return ("result", w.f(w.calls))
@@ -241,6 +256,8 @@ class System:
                 continue
             if list(got) != want:
                 probs.append(f"stage {i} ({m[1][i][0]}): expected output {want!r}, observed {list(got)!r}")
+        if w.bad_out:
+            probs.append(f"the probe whose activation was refused received events: {w.bad_out!r}")
         if w.stale_outs is not None and (w.stale_outs[0], w.stale_outs[1]) != ([0, 10], [2]):
             probs.append(f"the probe that ended before this history received or published something afterwards: {w.stale_outs!r}")
         if m[0] != "active":
